@@ -1,42 +1,33 @@
-"""Per-property configuration of the /verif checks.
+"""Per-property configuration of the /verif checks, one file per property in lib/propdefs/<ID>.py.
 
-tests: (rapid test name, (quick checks per shard, thorough checks per shard), {options})
-plain: non-rapid tests (regression replays, enumerations) run once in both tiers.
+Each file defines PROP = {...} with:
+  pkg            package directory of /repo the harness is compiled into (e.g. "internal/schedule")
+  files          harness files relative to /verif/harness/ injected into that package as zz_verif_<name>_test.go
+  extra_overlay  optional {path relative to /repo: file relative to /verif/harness/} for further overlay files
+  race           build with -race
+  level          evidence level (exploration | fault_enumeration | ...)
+  technique, level_text, level_note   MANIFEST texts
+  tests          [(rapid test name, (quick checks per shard, thorough checks per shard), {options})]
+                 options: shards (q,t), timeout (q,t) seconds, steps, shrinktime
+  plain          non-rapid tests (regression replays, enumerations) run once in both tiers
+  shards         (quick, thorough) shards per rapid test (same binary, different -rapid.seed)
+  workers        (quick, thorough) parallel processes
+  rule           evidence "rule" sentence: how cases are generated and what makes one non-trivial/distinct
+  assumptions    evidence assumptions
+  require_classes {tier: [class names that must be non-zero, else exit 2]}
+  env            extra environment for the test processes
+  claimed        False => listed under not_applicable with na_reason
 """
 
-PROPS = {
-    "C18": {
-        "pkg": "internal/schedule",
-        "files": ["schedule/c18_test.go"],
-        "level": "exploration",
-        "technique": "property-based testing (rapid) against a wall-clock reference model; round-trip and validity oracles",
-        "level_text": "Generated (zone, schedule, instant) cases over all IANA zones of the Go tzdata with instants "
-                      "concentrated at range edges, midnight and every offset transition 1970-2040, compared with a "
-                      "wall-clock reference; JSON/YAML round-trip chains read back by an independent decoder; "
-                      "accept/reject compared with the stated validity rule. Exploration: no absence claim, but the "
-                      "input space that matters (transition days x edge instants) is covered densely.",
-        "level_note": "Trusts Go's time package/tzdata, encoding/json and yaml.v3. ApplyBlockedServices' use of the "
-                      "schedule is exercised in C01 only for clock-free schedules.",
-        "tests": [
-            ("TestVFC18Contains", (4000, 40000)),
-            ("TestVFC18FullAndEmptyDay", (300, 2500)),
-            ("TestVFC18RoundTrip", (3000, 20000)),
-            ("TestVFC18Validation", (5000, 40000)),
-        ],
-        "plain": ["TestVFC18Regress"],
-        "shards": (1, 16),
-        "workers": (4, 16),
-        "rule": "Cases: (IANA zone, weekly schedule in whole minutes, instant) with instants drawn uniformly, "
-                "around range edges/midnight (incl. on transition days) and around every UTC-offset transition "
-                "1970-2040 of the zone (found by bisection); whole-day walks over transition days; JSON/YAML "
-                "round-trip chains; valid/invalid serialised schedules. Non-trivial = instant within 25h of an "
-                "offset transition or within 1 min of a range edge/midnight; a round trip with >=1 non-empty day; "
-                "an invalid serialised schedule. Distinct = FNV-64 of (zone, weekday, range, instant) resp. the "
-                "schedule text.",
-        "assumptions": [
-            "Go's time package and embedded tzdata give the correct wall clock of an instant in a zone (reference oracle)",
-            "encoding/json and yaml.v3 are trusted for decoding the marshalled form independently",
-        ],
-        "require_classes": {"thorough": ["nontrivial:near_transition", "nontrivial:edge", "validation:invalid"]},
-    },
-}
+import importlib.util
+import os
+
+PROPS = {}
+_d = os.path.join(os.path.dirname(os.path.abspath(__file__)), "propdefs")
+for _fn in sorted(os.listdir(_d)):
+    if not _fn.endswith(".py"):
+        continue
+    _spec = importlib.util.spec_from_file_location("propdef_" + _fn[:-3], os.path.join(_d, _fn))
+    _m = importlib.util.module_from_spec(_spec)
+    _spec.loader.exec_module(_m)
+    PROPS[_fn[:-3]] = _m.PROP
